@@ -26,6 +26,7 @@ var conflictNames = []string{"a", "a/b", "a/b/c", "a/c", "ab", "a.", "a/.", "b",
 type hop struct {
 	kind  string // A (add), C (compact range), CA (compact all), CE (compact all + expiry)
 	refs  []reftable.RefRecord
+	multi [][]reftable.RefRecord // M: a multi-table Addition, table k at update index next+k
 	logs  []reftable.LogRecord
 	auto  bool
 	first int
@@ -37,6 +38,12 @@ func (o hop) String() string {
 	switch o.kind {
 	case "A":
 		return fmt.Sprintf("A:%d:%s~%s", b2i(o.auto), fmtRefs(o.refs), fmtLogs(o.logs))
+	case "M":
+		var parts []string
+		for _, rs := range o.multi {
+			parts = append(parts, fmtRefs(rs))
+		}
+		return "M:" + strings.Join(parts, "%")
 	case "C":
 		return fmt.Sprintf("C:%d:%d", o.first, o.last)
 	case "CA":
@@ -155,6 +162,35 @@ func runHistories(c *ctx, which string) error {
 				o.last = o.first + c.rng.Intn(ntab-o.first)
 			case r == 3 && which != "c12":
 				o.kind = "CA"
+			case (r == 4 && which != "c13") || (r >= 7 && which == "c12"):
+				// a multi-table Addition of 2..3 tables, 1..2 refs each
+				o.kind = "M"
+				ui := st.NextUpdateIndex()
+				nt := 2 + c.rng.Intn(2)
+				for t := 0; t < nt; t++ {
+					pick := map[string]bool{}
+					for k := 0; k < 1+c.rng.Intn(2); k++ {
+						pick[pool[c.rng.Intn(len(pool))]] = true
+					}
+					var nm []string
+					for k := range pick {
+						nm = append(nm, k)
+					}
+					sort.Strings(nm)
+					var rs []reftable.RefRecord
+					for _, k := range nm {
+						rec := reftable.RefRecord{RefName: k, UpdateIndex: ui + uint64(t)}
+						switch c.rng.Intn(5) {
+						case 0, 1: // delete
+						case 2:
+							rec.Target = pool[c.rng.Intn(len(pool))]
+						default:
+							rec.Value = oids[c.rng.Intn(3)]
+						}
+						rs = append(rs, rec)
+					}
+					o.multi = append(o.multi, rs)
+				}
 			default:
 				o.kind = "A"
 				o.auto = c.rng.Intn(3) == 0
@@ -258,6 +294,39 @@ func runHistories(c *ctx, which string) error {
 						}
 						return nil
 					})
+					if err != nil {
+						if strings.Contains(err.Error(), "existing ref") || strings.Contains(err.Error(), "invalid name") {
+							status = "rejected"
+						} else {
+							status = "err"
+						}
+					}
+				case "M":
+					ui := st.NextUpdateIndex()
+					tr, err := st.NewAddition()
+					if err == nil {
+						for t := range o.multi {
+							rs := o.multi[t]
+							u := ui + uint64(t)
+							err = tr.Add(func(w *reftable.Writer) error {
+								w.SetLimits(u, u)
+								for k := range rs {
+									r := rs[k]
+									if err := w.AddRef(&r); err != nil {
+										return err
+									}
+								}
+								return nil
+							})
+							if err != nil {
+								break
+							}
+						}
+						if err == nil {
+							err = tr.Commit()
+						}
+						tr.Close()
+					}
 					if err != nil {
 						if strings.Contains(err.Error(), "existing ref") || strings.Contains(err.Error(), "invalid name") {
 							status = "rejected"
